@@ -143,6 +143,40 @@ claim('C18', 'Coq proof (compound = builder in place + one task with the probe h
       'Kernel + vm_compute; one worker; premises: C14_reload_loop hypotheses for the value theorem, Python scoping for cleanup; probe hash = Task(builder, args).hash() predicted with stub functions; values integers mod 3 and pairs; kwargs/list/dict results and raising builders not modelled.',
       'DESIGN.md sec. 3 C18')
 
+_EXEC_TIE = 'Tie (trace validation): the real jug.jug.execution_loop runs in lock-step worker threads (1-9 workers, late joiners, early leavers, generated schedules incl. all interleavings for tiny cases) over proxy stores/locks on dict, file, packed file and fake-redis backends, programs with free constructor task functions over rich argument structures; every recorded trace must be accepted by Model/Exec.v `run` and end in the store the model predicts (coqc, vm_compute); direct oracles on the real runs in Python.'
+_EXEC_NOTE = 'Kernel + vm_compute; hypotheses: task functions deterministic and reading only their dependencies (`framed`, proved for the generated programs), acyclic task graph closed under dependencies (`wf_prog`, checked per case); store and lock operations atomic at the API level (primitive-level atomicity: C04/C05); harness: program generator/realiser, lock-step scheduler, proxy stores, fake redis, interning. The ExecuteCommand wrapper (signal handler installation, barrier reload loop, exit status accumulation) is covered by C14 and by subprocess runs in the thorough tier only.'
+claim('C01', 'Coq proof (safety invariant of the N-worker execution protocol preserved by every step; uniqueness of sound stores; completeness at quiescence by a ghost-clock invariant) + trace validation of real multi-worker runs in coqc + sequential-evaluation oracle',
+      'Theorems (Props/C01.v) over Model/Exec.v for any number of workers, every DAG and every interleaving: every value ever stored IS the value of '
+      'sequential evaluation (also mid-way and with failures, stops, crashes); when every worker has left without stop request or crash exactly the tasks that '
+      'neither raise nor depend on a raising one are stored (all of them in a run without failures); a stored task is never started again and its value never '
+      'changes, so a second execute does nothing; the generated programs meet the hypotheses.  ' + _EXEC_TIE, _EXEC_NOTE, 'DESIGN.md sec. 3 C01')
+claim('C02', 'Coq proof (lock-ownership invariant => mutual exclusion; re-check under the lock => no start once stored; ghost call counter => exactly once) + trace validation of real multi-worker runs in coqc + invocation-log oracle',
+      'Theorems (Props/C02.v) for any number of workers and every interleaving: two workers are never inside the function of the same task; once a result '
+      'is stored the start event is not enabled, the call counter never moves and the value is never overwritten, whatever follows; absent failures, stops and '
+      'crashes every function is called at most once, exactly once if it ends up stored - also across repeated executes.  ' + _EXEC_TIE, _EXEC_NOTE, 'DESIGN.md sec. 3 C02')
+claim('C03', 'Coq proof (start guard + dependency-closedness of sound stores; frame/blame theorems of argument resolution; completeness of the dependency walk) + trace validation of real multi-worker runs in coqc + differential evaluation of value()/dependencies() (C16 tie)',
+      'Theorems (Props/C03.v): when the function of a task is started every direct and indirect dependency has its result; what is returned and stored is the '
+      'function applied to the stored results, for programs literally the free function applied to value() of each argument expression; the code\'s dependency walk '
+      'declares exactly the tasks occurring under the arguments (positional, keyword, containers, tasklet bases and indices, mapped sequences and slices, '
+      'CustomHash); resolution reads the store at those tasks only and never hits a missing result once they are stored.  ' + _EXEC_TIE, _EXEC_NOTE, 'DESIGN.md sec. 3 C03')
+claim('C11', 'Coq proof (doomed tasks are never stored and their dependents never started; completeness at quiescence under --keep-going; exit status and lock after a failure) + trace validation of real runs with raising task functions in coqc',
+      'Theorems (Props/C11.v): after a task function raised nothing is ever stored for it or for any task depending on it and no dependent is ever started, in '
+      'any continuation; with --keep-going, once every worker has left, exactly the tasks not depending on a failed one are stored; the exit status of a worker not '
+      'asked to stop is non-zero iff a task function raised in it; the lock of the failed task is released, or with --keep-failed left marked failed, and a failed '
+      'lock stays failed and cannot be acquired until failed locks are cleaned up.  ' + _EXEC_TIE + '  Raising functions x keep_going x keep_failed, real cleanup --failed-only.', _EXEC_NOTE, 'DESIGN.md sec. 3 C11')
+claim('C12', 'Coq proof (a stop request is enabled in every protocol state; a stopped worker never dumps, starts or locks again and can only release its lock; exits hold no lock; restart + completeness) + trace validation of real interrupted runs in coqc',
+      'Theorems (Props/C12.v): a stop request can arrive while choosing, waiting, holding a lock, inside a task function, between function and dump, after the dump, '
+      'and changes no result and no lock; from then on the worker stores nothing, starts nothing, locks nothing - all it can do is release the lock it holds; a worker '
+      'that has left holds no lock; once nobody holds a lock, later workers complete the computation with the sequential values.  ' + _EXEC_TIE +
+      '  SystemExit/KeyboardInterrupt raised at every scheduling point of small programs, the real exit_checks hooks; real SIGTERM/SIGINT subprocess runs in the thorough tier.',
+      _EXEC_NOTE + '  Signal delivery inside lock.get() itself is outside the model (and outside the property).', 'DESIGN.md sec. 3 C12')
+claim('C13', 'Coq proof (a crash changes nothing but the crashed worker; dead workers are silent; results are write-once and sound; stale-lock removal; restart + completeness) + trace validation of real crashed-and-recovered runs in coqc',
+      'Theorems (Props/C13.v): a crash at any point leaves every result, every lock and every other worker as they were (residue: the locks it held); the dead worker '
+      'never acts again; everything stored stays stored, unchanged and sequential, and is never re-run; stale locks can be removed as soon as every holder is dead, '
+      'which frees every lock and touches nothing else; a fresh execute then completes the whole computation.  ' + _EXEC_TIE +
+      '  Workers stopped for ever at every scheduling point + real remove_locks + recovery workers; real SIGKILL subprocess runs on a file store in the thorough tier.',
+      _EXEC_NOTE + '  Atomicity of a dump under kill / power loss is C05.', 'DESIGN.md sec. 3 C13')
+
 ALL = ['C%02d' % i for i in range(1, 21)]
 
 
